@@ -2,7 +2,7 @@
    Only statements; proofs are in ProofsMap / ProofsIter / ProofsBuf / ProofsBatch. *)
 From Verif Require Import Base.Lex Union.Model Union.ProofsMap Union.ProofsIter Union.ProofsBuf Union.ProofsBatch Union.ProofsProps.
 
-Notation sorted := (dsorted false).   (* strictly ascending keys, hence duplicate free *)
+(* `sorted` is ProofsMap's notation for `dsorted false`: strictly ascending keys, hence duplicate free *)
 
 (* Forward and reverse iteration of the union store over an ascending buffer content (tombstones included)
    and an ascending snapshot without empty values, for arbitrary bounds: the cursor machine of UnionIter
